@@ -21,6 +21,7 @@ CONSTANTS
     Fns = {{"one", "two", "id", "neg", "dbl", "inc", "step", "dsum", "add", "sub", "mul", "sel", "mad"}}
     UseData = TRUE
     ForwardRefs = {fwd}
+    WithJac = FALSE
     EmitOn = TRUE
 INIT Init
 NEXT Next
